@@ -196,6 +196,7 @@ func trajectory(cs *sym.Case, rng *rand.Rand, K int, lr float64) (string, bool, 
 		}
 	}
 	known := false
+	reg := bind.NewRegistry() // the activation and loss OBJECTS persist across the steps, as in a real training loop
 	for k := 0; k < K; k++ {
 		// forward pass through the real components, following the case's program
 		nodes := []tensor.Tensor{*ws[0].Value, *ws[1].Value, x, t}
@@ -209,7 +210,9 @@ func trajectory(cs *sym.Case, rng *rand.Rand, K int, lr float64) (string, bool, 
 				for i, a := range ins.Args {
 					args[i] = nodes[a-1]
 				}
-				o, err = bind.Apply(ins.Op, ins.Par, args)
+				par := ins.Par
+				par.Inst = 100 + len(nodes)
+				o, _, err = bind.ApplyIn(reg, ins.Op, par, args)
 			}
 			if err != nil {
 				return fmt.Sprintf("step %d: %s failed: %v", k, ins.Op, err), false, k
